@@ -38,6 +38,8 @@ def _variants(prop):
         meta = json.load(open(mp))
         if meta.get("breaks_property") == prop or prop in (meta.get("also_breaks") or []):
             out.append({"id": "seeded:" + os.path.basename(d), "kind": "mutant", "edits": None, "patch": os.path.join(d, "patch.diff")})
+    # generated twin: every module re-emitted by ast.unparse (comments gone, layout and line numbers changed)
+    out.append({"id": "generated:reformatted", "kind": "twin", "edits": None, "patch": None, "transform": "unparse"})
     for d in sorted(glob.glob(os.path.join(HERE, "twins", "*"))):
         mp = os.path.join(d, "meta.json")
         if not os.path.exists(mp):
@@ -52,7 +54,16 @@ def _run_variant(prop, v, repo):
     d = tempfile.mkdtemp(prefix="bbself_")
     try:
         shutil.copytree(os.path.join(repo, "src"), os.path.join(d, "src"))
-        if v["patch"]:
+        if v.get("transform") == "unparse":
+            import ast as _ast
+
+            for root, _dirs, files in os.walk(os.path.join(d, "src")):
+                for fn in files:
+                    if fn.endswith(".py"):
+                        pth = os.path.join(root, fn)
+                        text = _ast.unparse(_ast.parse(open(pth).read())) + "\n"
+                        open(pth, "w").write(text)
+        elif v["patch"]:
             r = subprocess.run(["patch", "-s", "-p1", "-d", d, "--no-backup-if-mismatch"], stdin=open(v["patch"]), capture_output=True, text=True)
             if r.returncode != 0:
                 return v["id"], v["kind"], "skipped", "patch does not apply to the current tree", []
